@@ -164,8 +164,19 @@ structure St where
   kbs : List (Nat × KB)
   /-- kept `*DictDB` objects; `none` = a nil result of `GetDB` -/
   dicts : List (Nat × Option Dict)
+  /-- kept `*ArrayDB` / `*VarDB` objects: in the model a handle is just its key builder -/
+  handles : List (Nat × KB)
+  snap : Option Store
 
-def init : St := { store := [], kbs := [], dicts := [] }
+def init : St := { store := [], kbs := [], dicts := [], handles := [], snap := none }
+
+/-- handle operation → the stateless operation on the handle's builder -/
+def handleOp (op : String) : Option String :=
+  match op with
+  | "hasize" => some "asize" | "haget" => some "aget" | "haset" => some "aset"
+  | "haput" => some "aput" | "hapop" => some "apop"
+  | "hvget" => some "vget" | "hvset" => some "vset" | "hvdel" => some "vdel"
+  | _ => none
 
 def slotDict (ds : List (Nat × Option Dict)) (n : Nat) : Option (Option Dict) :=
   (ds.find? (fun p => p.1 == n)).map (·.2)
@@ -229,6 +240,31 @@ def step (st : St) (toks : List String) : St × String :=
         let r := dictDel H st.store d (ks.map toBytes)
         ({ st with store := r.1 }, if r.2 then "ok" else "err")
     | _, _ => (st, "bad-op")
+  | ["hnew", n, spec] =>
+    match n.toNat? with
+    | none => (st, "bad-op")
+    | some n =>
+      match parseKB st.kbs spec with
+      | none => (st, "bad-op")
+      | some none => (st, "panic")
+      | some (some kb) => ({ st with handles := (n, kb) :: st.handles.filter (fun p => p.1 != n) }, "ok")
+  | ["snap"] => ({ st with snap := some st.store }, "ok")
+  | ["rollback"] =>
+    match st.snap with
+    | some s => ({ st with store := s }, "ok")
+    | none => (st, "bad-op")
+  | op :: n :: args =>
+    match handleOp op, n.toNat? with
+    | some core, some n =>
+      match slotKB st.handles n with
+      | none => (st, "bad-op")
+      | some kb =>
+        let r := stepCore [(0, kb)] st.store (core :: "@0" :: args)
+        ({ st with store := r.1 }, r.2)
+    | some _, none => (st, "bad-op")
+    | none, _ =>
+      let r := stepCore st.kbs st.store toks
+      ({ st with store := r.1 }, r.2)
   | _ =>
     let r := stepCore st.kbs st.store toks
     ({ st with store := r.1 }, r.2)
